@@ -1,4 +1,6 @@
 """C13 - peak-only series conserve total variation; equivalent-cycle measures are mutually inverse."""
+import math
+
 import numpy as np
 from hypothesis import strategies as st
 
@@ -42,6 +44,10 @@ def _series(draw, max_n=3000, start_zero=None):
     spec = draw(gen.record_specs(min_n=3, max_n=max_n, allow_zero_runs=True, allow_int=True, amp_lo=-3, amp_hi=3))
     case = {"rec": spec, "start0": draw(st.booleans()) if start_zero is None else start_zero,
             "offset": draw(st.sampled_from([0.0, 0.0, 1.0, -2.5, 1024.0, -0.375]))}
+    if not case["start0"] and draw(st.integers(0, 3)) == 0:
+        # the record starts AT the largest value of its first excursion (a record cut at a peak, a step load): the first sample
+        # is then itself a switched peak
+        case["lead"] = draw(st.sampled_from([1.25, 2.0, 1.0]))
     return case
 
 
@@ -49,6 +55,9 @@ def _build(case):
     a = _tidy(gen.build(case["rec"]))
     if case.get("start0"):
         a = a - a[0] if case["rec"]["k"] == "dyadic" else np.concatenate([[0.0], a])
+    elif case.get("lead") and np.any(a != 0):
+        first = a[np.flatnonzero(a)[0]]
+        a = np.concatenate([[math.copysign(case["lead"] * float(np.max(np.abs(a))), first)], a])
     how = case["rec"].get("as")
     if how == "int":
         a = np.round(a * (8 if np.max(np.abs(a)) < 1e6 else 1))
@@ -179,7 +188,7 @@ def _ref_series(a, peaks, contrib):
         oracle="reference model built from the reference switched peaks (C12): series == running sums (1e-10 rel), length, monotone; "
                "inverse A(N(a_ref)) == a_ref (cut_off 0; >= with cut_off); A(alpha x) == |alpha| A(x); N(alpha x, alpha a_ref) == N(x, a_ref); "
                "identical components: combined == 2^b single, geometric mean == single; array b column j == scalar call",
-        require={"nonzero-start": 0.2, "cut>0": 0.3}, min_nontrivial=0.3)
+        require={"nonzero-start": 0.2, "cut>0": 0.3, "first-value-is-peak": 0.06}, min_nontrivial=0.3)
 def power_law(case, ctx):
     a, _ = _build(case)
     if ref.is_constant(a):
@@ -212,6 +221,7 @@ def power_law(case, ctx):
     peaks = ref.switched_peaks(a)
     tie, _ = ref.switched_freedom(a)
     pv = np.abs(a[peaks]).astype(LD)
+    ctx.cls("first-value-is-peak" if case.get("lead") else None)
     ctx.cls(gen.size_class(n), "nonzero-start" if a[0] != 0 else "zero-start", "cut>0" if cut > 0 else "cut=0", "tie" if tie else None,
             "below-cut" if cut > 0 and np.any((pv > 0) & (pv < cut * amax)) else None)
     ctx.nt(len([p for p in pv if p > 0]) >= 4)
